@@ -623,6 +623,23 @@ def check_palette(ctx: Ctx, entries, colors, bright, order):
         for e in entries:
             scr.register_palette_entry(*e)
         scr.set_terminal_properties(colors=colors)
+    elif order == "redefine":
+        # one list in which every name is defined, aliased, and then defined again: the alias keeps the first definition, the name gets the second
+        scr, out = make_screen(colors, bright)
+
+        def form(e, name=None):
+            e = (name or e[0], *e[1:])
+            if e[4] is not None:
+                return tuple(e)
+            return tuple(e[:4]) if e[3] is not None else tuple(e[:3])
+
+        lst = []
+        expect = {}
+        for e1, e2 in zip(entries, entries[1:] + entries[:1]):
+            lst += [form(e1), ("alias:" + e1[0], e1[0]), form(e2, e1[0])]
+            expect[e1[0]] = e2
+            expect["alias:" + e1[0]] = e1
+        scr.register_palette(lst)
     else:  # alias
         scr, out = make_screen(colors, bright)
         def form(e):
@@ -634,8 +651,10 @@ def check_palette(ctx: Ctx, entries, colors, bright, order):
     cols = 4
     scr.start()
     out.take()
-    names = [e[0] for e in entries] + (["alias:" + e[0] for e in entries] if order == "alias" else [])
+    names = [e[0] for e in entries] + (["alias:" + e[0] for e in entries] if order in ("alias", "redefine") else [])
     by_name = {e[0]: e for e in entries}
+    if order == "redefine":
+        by_name = expect
     for name in names + ["<undefined>", None]:
         ctx.count("evaluations")
         term = Term(cols, 1)
@@ -652,7 +671,7 @@ def check_palette(ctx: Ctx, entries, colors, bright, order):
             spec = AttrSpec("default", "default")
             what = "default"
         else:
-            ent = by_name[name[6:] if name.startswith("alias:") else name]
+            ent = by_name[name] if order == "redefine" else by_name[name[6:] if name.startswith("alias:") else name]
             fgd, bgd, depth = want_for(ent, colors)
             spec = AttrSpec(fgd, bgd, depth)
             what = f"{fgd!r}/{bgd!r} at {depth}"
@@ -708,7 +727,7 @@ def run(tier, R):
     t3 = []
     for colors in (1, 16, 88, 256, 2**24):
         for bright in (False, True):
-            for order in ("props-first", "palette-first", "bright-later", "depth-later", "alias"):
+            for order in ("props-first", "palette-first", "bright-later", "depth-later", "alias", "redefine"):
                 for lo in range(0, len(ents), 60):
                     t3.append((colors, bright, order, lo, lo + 60, tier))
     R.run_tasks(palette_task, t3, recheck=0.03)
